@@ -55,6 +55,10 @@
             A_QUE_PULL_BACK, A_QUE_INSERT, A_QUE_REMOVE, A_QUE_AT, A_QUE_FORE, A_QUE_BACK,
             A_QUE_PUSH_SORT) instead of the function.
 
+   The list walks run only while every link designates a slot of the driver's arrays (a link
+   that does not - NULL from a constructor defect, say - gives acc=BAD:a_list:wild-link /
+   a_slist:wild-link and "w=-" instead of a crash of the driver).
+
    After a broken ring has been seen in a queue history the rest of that history is skipped
    ("dead"), so that a defect cannot make the driver loop or touch freed memory. */
 #include "a/list.h"
@@ -228,10 +232,29 @@ static int macro_l(a_list *ctx, int which, int *ids)
 static char const *const lmacro[8] = {"a_list_foreach_next", "A_LIST_FOREACH_NEXT", "a_list_forsafe_next", "A_LIST_FORSAFE_NEXT",
                                       "a_list_foreach_prev", "A_LIST_FOREACH_PREV", "a_list_forsafe_prev", "A_LIST_FORSAFE_PREV"};
 
+/* every link designates a slot of the node array (slot 0 included): the walks cannot leave it */
+static int safe_l(void)
+{
+    int i;
+    a_uptr const base = (a_uptr)&lobj[0].node;
+    for (i = 1; i <= ln; ++i)
+    {
+        a_uptr const n = (a_uptr)lobj[i].node.next, p = (a_uptr)lobj[i].node.prev;
+        if (n < base || (n - base) % sizeof(struct lobj) || (n - base) / sizeof(struct lobj) > (a_uptr)ln) { return 0; }
+        if (p < base || (p - base) % sizeof(struct lobj) || (p - base) / sizeof(struct lobj) > (a_uptr)ln) { return 0; }
+    }
+    return 1;
+}
+
 static void acc_l(void)
 {
     int c, k;
     static int want[MAXN + 2], got[MAXN + 2];
+    if (!safe_l())
+    {
+        bad("a_list:wild-link", 0, 0);
+        return;
+    }
     for (c = 1; c <= ln; ++c)
     {
         a_list *const ctx = &lobj[c].node;
@@ -302,7 +325,7 @@ static void put_w_l(int c)
 {
     static int ids[MAXN + 2];
     int n;
-    if (c < 1 || c > ln)
+    if (c < 1 || c > ln || !safe_l())
     {
         printf(" w=-");
         return;
@@ -367,10 +390,11 @@ static int run_l(char const *op, int const *a, int n)
 static void begin_l(void)
 {
     int i;
+    lobj[0].node.next = lobj[0].node.prev = &lobj[0].node; /* slot 0 is no node of the case: prints as '?' */
     for (i = 1; i <= ln; ++i)
     {
         lobj[i].tag = i;
-        lobj[i].node.next = lobj[i].node.prev = A_NULL;
+        lobj[i].node.next = lobj[i].node.prev = &lobj[0].node; /* garbage for the constructor to overwrite */
         switch (i & 3)
         {
         case 1:
@@ -483,10 +507,27 @@ static int macro_s(a_slist *l, int which, int *ids)
 
 static char const *const smacro[4] = {"a_slist_foreach", "A_SLIST_FOREACH", "a_slist_forsafe", "A_SLIST_FORSAFE"};
 
+/* every next pointer is NULL, a list head or a node of the array: the walks cannot leave them */
+static int safe_s(void)
+{
+    int i;
+    if (sid(slist[1].head.next) < 0 || sid(slist[2].head.next) < 0) { return 0; }
+    for (i = 3; i <= sn + 2; ++i)
+    {
+        if (sid(sobj[i].node.next) < 0) { return 0; }
+    }
+    return 1;
+}
+
 static void acc_s(void)
 {
     static int want[MAXN + 4], got[MAXN + 4];
     int l, k, i;
+    if (!safe_s())
+    {
+        bad("a_slist:wild-link", 0, 0);
+        return;
+    }
     for (l = 1; l <= 2; ++l)
     {
         int const nw = walk_s(&slist[l], want);
@@ -563,12 +604,16 @@ static void dump_s(void)
         printf(" %d:", i);
         pid_(sid(sobj[i].node.next));
     }
-    printf(" w=");
-    n = macro_s(&slist[1], 0, ids);
-    put_seq(ids, n);
-    (void)putchar('/');
-    n = macro_s(&slist[2], 0, ids);
-    put_seq(ids, n);
+    if (safe_s())
+    {
+        printf(" w=");
+        n = macro_s(&slist[1], 0, ids);
+        put_seq(ids, n);
+        (void)putchar('/');
+        n = macro_s(&slist[2], 0, ids);
+        put_seq(ids, n);
+    }
+    else { printf(" w=-/-"); }
     acc_s();
     put_acc();
 }
@@ -1117,7 +1162,7 @@ static void selftest_q(void)
 #define T_BODY(it)                                        \
     if (n >= 6) { break; }                                \
     seen[n++] = *it;                                      \
-    if (a_que_remove(q, k < 2 ? 0 : a_que_num(q) - 1) != (void *)it) { okseq = 0; }
+    if (a_que_remove(q, k < 2 ? 0 : q->num_ - 1) != (void *)it) { okseq = 0; }
         switch (k)
         {
         case 0:
@@ -1138,7 +1183,7 @@ static void selftest_q(void)
         {
             if (n != 3 || seen[i] != (k < 2 ? i + 1 : 3 - i)) { okseq = 0; }
         }
-        if (!okseq || a_que_num(q)) { bad(qmacro[k], -n, 3); }
+        if (!okseq || q->num_) { bad(qmacro[k], -n, 3); }
     }
     /* leave no trace: the scratch elements are given back, names start at 3 again */
     a_que_dtor(que[0], A_NULL);
